@@ -95,12 +95,42 @@ func (c *Ctx) StoreHelperRules(prop string, s *Slashing, kind string) map[*ssa.F
 		if !hasState {
 			continue
 		}
+		wrappers := c.storeWrappers(s)
 		for _, ci := range Calls(fn, func(ci ssa.CallInstruction) bool {
 			f := ci.Common().StaticCallee()
-			return f == s.StoreStore || f == s.StoreBatch
+			return f == s.StoreStore || f == s.StoreBatch || wrappers[f] != nil
 		}) {
 			args := ci.Common().Args
 			h := &storeHelper{Fn: fn}
+			if w := wrappers[ci.Common().StaticCallee()]; w != nil {
+				// store(ctx, pubKey, action, value) wrapper: key = pubKey || action inside, the error handed back
+				pk := args[w.pk]
+				g := globalOfLoad(args[w.action])
+				if g == nil {
+					c.R.Fail(ruleKey, Fn(fn), c.Pos(ci), "database key: the action handed to the store wrapper is not a package-level action value: "+an.Term(args[w.action]), "key = pubKey || action", nil)
+					continue
+				}
+				h.PKParam = paramIdx(fn, pk)
+				if h.PKParam < 0 {
+					c.R.Fail(ruleKey, Fn(fn), c.Pos(ci), "the key prefix is not the helper's public-key parameter: "+an.Term(pk), "key = pubKey parameter || action", nil)
+					continue
+				}
+				recv, ok := encodeOf(args[w.val])
+				if !ok {
+					c.R.Fail(rule, Fn(fn), c.Pos(ci), "the value written is not the encoding of a state object: "+an.Term(args[w.val]), "value = state.Encode()", nil)
+					continue
+				}
+				h.STParam = paramIdx(fn, recv)
+				if h.STParam < 0 {
+					c.R.Fail(rule, Fn(fn), c.Pos(ci), "the state encoded is not the helper's state parameter: "+an.Term(recv), "value = Encode() of the state parameter", nil)
+					continue
+				}
+				h.Action = g
+				c.R.OK(ruleKey, Fn(fn), c.Pos(ci), "key = pubKey parameter || "+g.Name()+" (through "+Fn(ci.Common().StaticCallee())+")")
+				c.R.OK(rule, Fn(fn), c.Pos(ci), "value = Encode() of the state parameter")
+				out[fn] = h
+				continue
+			}
 			if ci.Common().StaticCallee() == s.StoreStore {
 				pk, g, why := keyBuild(fn, args[2])
 				if why != "" {
@@ -784,4 +814,60 @@ func (c *Ctx) batchFetchOK(fn *ssa.Function, fhs map[*ssa.Function]bool) string 
 		return ""
 	}
 	return "no full-range loop fetching every state"
+}
+
+// storeWrapper describes a package helper `store(ctx, pubKey, action, value) error` that is nothing but
+// `return s.store.Store(ctx, pubKey || action, value)`: the positions of its public-key, action and value parameters.
+type storeWrapper struct{ pk, action, val int }
+
+func globalOfLoad(v ssa.Value) *ssa.Global {
+	if u, ok := v.(*ssa.UnOp); ok {
+		if g, ok := u.X.(*ssa.Global); ok {
+			return g
+		}
+	}
+	return nil
+}
+
+func (c *Ctx) storeWrappers(s *Slashing) map[*ssa.Function]*storeWrapper {
+	if m, ok := c.memo["storeWrappers"].(map[*ssa.Function]*storeWrapper); ok {
+		return m
+	}
+	m := map[*ssa.Function]*storeWrapper{}
+	c.memo["storeWrappers"] = m
+	for _, fn := range c.P.ModuleFuncs() {
+		if prog.PkgPathOf(fn) != s.Pkg.Pkg.Path() || fn.Blocks == nil || len(fn.Blocks) != 1 {
+			continue
+		}
+		calls := Calls(fn, func(ci ssa.CallInstruction) bool { return ci.Common().StaticCallee() == s.StoreStore })
+		if len(calls) != 1 {
+			continue
+		}
+		call, ok := calls[0].(*ssa.Call)
+		if !ok {
+			continue
+		}
+		rets := an.Returns(fn)
+		if len(rets) != 1 || len(rets[0].Results) != 1 || an.Result(rets[0], 0) != ssa.Value(call) {
+			continue
+		}
+		pidx := func(v ssa.Value) int {
+			for i, p := range fn.Params {
+				if ssa.Value(p) == v {
+					return i
+				}
+			}
+			return -1
+		}
+		pre, suf, why := keyBuildVal(fn, call.Call.Args[2], 0)
+		if why != "" {
+			continue
+		}
+		w := &storeWrapper{pk: pidx(pre), action: pidx(suf), val: pidx(call.Call.Args[3])}
+		if w.pk < 0 || w.action < 0 || w.val < 0 {
+			continue
+		}
+		m[fn] = w
+	}
+	return m
 }
